@@ -75,6 +75,8 @@ structure Mon where
   entered : Array Nat := #[]
   waits : List Wait := []
   suspended : Bool := false
+  stopSusp : Bool := false       -- the harness entered stop() on a suspended runtime (x.stop.enter 1)
+  parked : List Nat := []        -- OS threads that logged pu.sleep and no pu.wake since
   incStart : Nat := 0            -- first task id of the current incarnation
   entry : Option Nat := none     -- value returned by the entry function in this incarnation
   viol : List String := []
@@ -127,6 +129,13 @@ def monStep (m : Mon) (l : Line) : Mon :=
   | "x.res.enter" => { m with suspended := false }
   | "x.entry" => { m with entry := some x }
   | "x.start" => { m with incStart := m.known.size, entry := none }
+  | "x.stop.enter" => { m with stopSusp := x == 1 }
+  | "pu.sleep" => { m with parked := l.tid :: m.parked }
+  | "pu.wake" => { m with parked := m.parked.filter (· != l.tid) }
+  | "life.stop.exit" =>
+    -- stop() joins every worker: none of them can still be parked in scheduler_base::suspend
+    if m.parked.isEmpty then m
+    else addViol { m with parked := [] } s!"stop() returned while workers {m.parked.take 6} were still parked (no pu.wake since their pu.sleep)"
   | "x.stop.exit" =>
     let n := m.known.size
     let missing := (List.range n).filter (fun k => getB m.known k && !getB m.exited k)
@@ -134,7 +143,8 @@ def monStep (m : Mon) (l : Line) : Mon :=
       else addViol m s!"stop() returned while submitted tasks had not finished: {missing.take 6}"
     let want := m.entry.getD 0
     let m := if x == want then m else addViol m s!"stop() returned {x}, the entry function returned {want}"
-    if m.suspended then addViol m "stop() returned while suspended flag set" else m
+    let m := if m.suspended && !m.stopSusp then addViol m "stop() returned while suspended flag set" else m
+    { m with suspended := false, stopSusp := false }
   | _ => m
 
 def monitors (ls : List Line) : List String :=
@@ -169,12 +179,18 @@ def runCase (c : Case) : String :=
   let ls := dropPooled (parsed.filterMap id).toArray
   let na := ls.foldl (fun m l => max m (l.tid + 1)) 1
   let no := ls.foldl (fun m l => max m (l.obj + 1)) 1
-  let mon := mons ++ monitors ls ++ (if c.status == "ok" then [] else [s!"run ended with status '{c.status}'"])
+  -- `pending-stop`: directed probe (smode 4) whose expected outcome is that stop() does not return
+  let pending := c.status == "pending-stop"
+  let mon := mons ++ monitors ls ++ (if c.status == "ok" || pending then [] else [s!"run ended with status '{c.status}'"])
   let monS := if mon.isEmpty then "monitors ok" else "monitors FAIL: " ++ " | ".intercalate mon
   match accept (Life.init na no) ls 0 0 with
   | .error (i, raw) => s!"case {c.id} reject {i} [{raw}] ; {monS}"
   | .ok (s, n) =>
-    let fin := if s.ph == .none && s.cnt == 0 then "final ok"
+    let fin := if pending then
+        (if s.ph == .suspended && s.cnt > 0 && s.spc == .waitedFin && s.stopper.isSome then
+          "final ok-pending (stop() on a suspended runtime with queued work keeps polling)"
+        else s!"final MISMATCH: run ended 'pending-stop' but model phase {repr s.ph} count {s.cnt} stop pc {repr s.spc}")
+      else if s.ph == .none && s.cnt == 0 then "final ok"
       else s!"final MISMATCH: run ended but model phase {repr s.ph} count {s.cnt}"
     s!"case {c.id} accept {n} ; {fin} ; incarnations {s.incarnation} ; {monS}"
 
